@@ -917,4 +917,293 @@ theorem extractCpu_ok {c : CpuGraph} {g : Graph} {ct : Nat} {res : CpuResult} (h
     exact ⟨g', hr, h.symm⟩
   · cases h
 
+
+/-! ## Tightness: a range is no wider than the hull of the marks it received -/
+
+theorem hits_le {g g' : Graph} (h : g.Le g') {e : Ev} {i : Nat} {lo hi : Int} (hh : e.Hits g i lo hi) :
+    e.Hits g' i lo hi := by
+  cases e with
+  | mark t a b => exact ⟨h.lookup t i hh.1, hh.2⟩
+  | rolling t sz a => exact ⟨h.lookup t i hh.1, hh.2⟩
+  | markVars len =>
+    obtain ⟨⟨t, ht, hv⟩, rest⟩ := hh
+    exact ⟨⟨t, h.mem _ ht, hv⟩, rest⟩
+  | fuse a b => exact hh
+  | fail => exact hh
+
+theorem markUsage_cases (r : LR) (a b : Int) :
+    ((r.markUsage a b).start = r.start ∨ (max a 0 ≤ a + b ∧ (r.markUsage a b).start = max a 0)) ∧
+    ((r.markUsage a b).end_ = r.end_ ∨ (max a 0 ≤ a + b ∧ (r.markUsage a b).end_ = a + b)) := by
+  unfold LR.markUsage
+  simp only
+  split
+  · exact ⟨Or.inl rfl, Or.inl rfl⟩
+  · rename_i hnd
+    have hnd' : max a 0 ≤ a + b := by omega
+    refine ⟨?_, ?_⟩
+    · simp only
+      by_cases hm : r.start ≤ max a 0
+      · exact Or.inl (by omega)
+      · exact Or.inr ⟨hnd', by omega⟩
+    · simp only
+      by_cases hm : a + b ≤ r.end_
+      · exact Or.inl (by omega)
+      · exact Or.inr ⟨hnd', by omega⟩
+
+theorem getOrCreate_lrs {g : Graph} (t : Tensor) (i : Nat) (r : LR) (h : (g.getOrCreate t).1.lrs[i]? = some r) :
+    g.lrs[i]? = some r ∨ (g.lrs[i]? = none ∧ r.start = startInit ∧ r.end_ = endInit) := by
+  unfold Graph.getOrCreate at h
+  cases hl : g.lookup t with
+  | some j => simp only [hl] at h; exact Or.inl h
+  | none =>
+    simp only [hl] at h
+    rcases Nat.lt_or_ge i g.lrs.length with hi | hi
+    · rw [List.getElem?_append_left hi] at h
+      exact Or.inl h
+    · rw [List.getElem?_append_right hi] at h
+      refine Or.inr ⟨List.getElem?_eq_none hi, ?_⟩
+      cases hk : i - g.lrs.length with
+      | zero =>
+        simp only [hk, List.getElem?_cons_zero, Option.some.injEq] at h
+        subst h
+        exact ⟨rfl, rfl⟩
+      | succ k => simp [hk] at h
+
+
+/-- where start and end of range `i` come from after one step: unchanged, a fresh range, or a hit of the step -/
+def TightStep (g : Graph) (hit : Int → Int → Prop) (i : Nat) (r1 : LR) : Prop :=
+  ((∃ r0 : LR, g.lrs[i]? = some r0 ∧ r0.start = r1.start) ∨ (g.lrs[i]? = none ∧ r1.start = startInit) ∨
+     (∃ lo hi, hit lo hi ∧ lo = r1.start)) ∧
+  ((∃ r0 : LR, g.lrs[i]? = some r0 ∧ r0.end_ = r1.end_) ∨ (g.lrs[i]? = none ∧ r1.end_ = endInit) ∨
+     (∃ lo hi, hit lo hi ∧ hi = r1.end_))
+
+theorem tight_of_unchanged {g : Graph} {hit : Int → Int → Prop} {i : Nat} {r r1 : LR}
+    (h : g.lrs[i]? = some r ∨ (g.lrs[i]? = none ∧ r.start = startInit ∧ r.end_ = endInit))
+    (hs : r1.start = r.start) (he : r1.end_ = r.end_) : TightStep g hit i r1 := by
+  rcases h with h | ⟨h, h1, h2⟩
+  · exact ⟨Or.inl ⟨r, h, hs.symm⟩, Or.inl ⟨r, h, he.symm⟩⟩
+  · exact ⟨Or.inr (Or.inl ⟨h, by omega⟩), Or.inr (Or.inl ⟨h, by omega⟩)⟩
+
+/-- `get_or_create_range(t)` followed by `mark_usage(a, b)` on that range (size possibly reset first) -/
+theorem getOrCreate_mark_tight {g : Graph} (t : Tensor) (a b : Int) (pre : LR → LR)
+    (hpre : ∀ r : LR, (pre r).start = r.start ∧ (pre r).end_ = r.end_) (i : Nat) (r1 : LR)
+    (h : ((g.getOrCreate t).1.lrs.modify (g.getOrCreate t).2 (fun r => (pre r).markUsage a b))[i]? = some r1) :
+    TightStep g (fun lo hi => (g.getOrCreate t).2 = i ∧ max a 0 ≤ a + b ∧ lo = max a 0 ∧ hi = a + b) i r1 := by
+  simp only [List.getElem?_modify] at h
+  cases h0 : (g.getOrCreate t).1.lrs[i]? with
+  | none => simp [h0] at h
+  | some r0 =>
+    simp only [h0, Option.map_eq_map, Option.map_some, Option.some.injEq] at h
+    have hg := getOrCreate_lrs t i r0 h0
+    by_cases hji : (g.getOrCreate t).2 = i
+    · simp only [hji, if_true] at h
+      subst h
+      have hc := markUsage_cases (pre r0) a b
+      have hp := hpre r0
+      refine ⟨?_, ?_⟩
+      · rcases hc.1 with hc1 | ⟨hnd, hc1⟩
+        · rcases hg with hg | ⟨hg, h1, h2⟩
+          · exact Or.inl ⟨r0, hg, by omega⟩
+          · exact Or.inr (Or.inl ⟨hg, by omega⟩)
+        · exact Or.inr (Or.inr ⟨max a 0, a + b, ⟨hji, hnd, rfl, rfl⟩, hc1.symm⟩)
+      · rcases hc.2 with hc1 | ⟨hnd, hc1⟩
+        · rcases hg with hg | ⟨hg, h1, h2⟩
+          · exact Or.inl ⟨r0, hg, by omega⟩
+          · exact Or.inr (Or.inl ⟨hg, by omega⟩)
+        · exact Or.inr (Or.inr ⟨max a 0, a + b, ⟨hji, hnd, rfl, rfl⟩, hc1.symm⟩)
+    · simp only [hji, if_false] at h
+      subst h
+      exact tight_of_unchanged hg rfl rfl
+
+
+theorem foldl_modify_tight (len : Int) (ps : List (Tensor × Nat)) : ∀ (lrs : List LR) (i : Nat) (r1 : LR),
+    (ps.foldl (fun lrs p => if p.1.isVariable then lrs.modify p.2 (fun r => r.markUsage 0 len) else lrs) lrs)[i]? = some r1 →
+    ∃ r0 : LR, lrs[i]? = some r0 ∧
+      (r0.start = r1.start ∨ (0 ≤ len ∧ (∃ p ∈ ps, p.2 = i ∧ p.1.isVariable = true) ∧ r1.start = 0)) ∧
+      (r0.end_ = r1.end_ ∨ (0 ≤ len ∧ (∃ p ∈ ps, p.2 = i ∧ p.1.isVariable = true) ∧ r1.end_ = len)) := by
+  induction ps with
+  | nil => intro lrs i r1 h; exact ⟨r1, by simpa using h, Or.inl rfl, Or.inl rfl⟩
+  | cons p ps ih =>
+    intro lrs i r1 h
+    simp only [List.foldl_cons] at h
+    obtain ⟨r0', h0', hs, he⟩ := ih _ i r1 h
+    have lift : ∀ {P : Prop}, (0 ≤ len ∧ (∃ q ∈ ps, q.2 = i ∧ q.1.isVariable = true) ∧ P) →
+        (0 ≤ len ∧ (∃ q ∈ p :: ps, q.2 = i ∧ q.1.isVariable = true) ∧ P) := by
+      intro P ⟨h1, ⟨q, hq, hq2⟩, h3⟩
+      exact ⟨h1, ⟨q, List.mem_cons_of_mem _ hq, hq2⟩, h3⟩
+    by_cases hv : p.1.isVariable = true
+    · simp only [hv, if_true, List.getElem?_modify] at h0'
+      cases hl : lrs[i]? with
+      | none => simp [hl] at h0'
+      | some r0 =>
+        simp only [hl, Option.map_eq_map, Option.map_some, Option.some.injEq] at h0'
+        by_cases hpi : p.2 = i
+        · simp only [hpi, if_true] at h0'
+          subst h0'
+          have hc := markUsage_cases r0 0 len
+          have hm : max (0 : Int) 0 = 0 := by omega
+          have hit : ∃ q ∈ p :: ps, q.2 = i ∧ q.1.isVariable = true := ⟨p, by simp, hpi, hv⟩
+          refine ⟨r0, rfl, ?_, ?_⟩
+          · rcases hs with hs | hs
+            · rcases hc.1 with hc1 | ⟨hnd, hc1⟩
+              · exact Or.inl (by omega)
+              · exact Or.inr ⟨by omega, hit, by omega⟩
+            · exact Or.inr (lift hs)
+          · rcases he with he | he
+            · rcases hc.2 with hc1 | ⟨hnd, hc1⟩
+              · exact Or.inl (by omega)
+              · exact Or.inr ⟨by omega, hit, by omega⟩
+            · exact Or.inr (lift he)
+        · simp only [hpi, if_false] at h0'
+          subst h0'
+          exact ⟨r0, rfl, hs.imp id lift, he.imp id lift⟩
+    · simp only [hv] at h0'
+      exact ⟨r0', h0', hs.imp id lift, he.imp id lift⟩
+
+theorem apply_tight {g g1 : Graph} (hw : g.WF) (e : Ev) (h : g.apply e = .ok g1) (i : Nat) (r1 : LR)
+    (hr1 : g1.lrs[i]? = some r1) : TightStep g (fun lo hi => e.Hits g1 i lo hi) i r1 := by
+  cases e with
+  | mark t a b =>
+    simp only [Graph.apply, Except.ok.injEq] at h
+    subst h
+    have hg := getOrCreate_spec hw t
+    have := getOrCreate_mark_tight t a b id (fun r => ⟨rfl, rfl⟩) i r1 hr1
+    have hl : ({ lrs := (g.getOrCreate t).1.lrs.modify (g.getOrCreate t).2 (fun r => r.markUsage a b),
+                 ranges := (g.getOrCreate t).1.ranges } : Graph).lookup t = some (g.getOrCreate t).2 := hg.2.2.1
+    refine ⟨this.1.imp id (Or.imp id ?_), this.2.imp id (Or.imp id ?_)⟩ <;>
+    · rintro ⟨lo, hi, ⟨hji, hnd, hlo, hhi⟩, heq⟩
+      exact ⟨lo, hi, ⟨by rw [← hji]; exact hl, hnd, hlo, hhi⟩, heq⟩
+  | rolling t size a =>
+    simp only [Graph.apply, Except.ok.injEq] at h
+    subst h
+    have hg := getOrCreate_spec hw t
+    have := getOrCreate_mark_tight t a 1 (fun r => r.setBufferSize size) (fun r => ⟨rfl, rfl⟩) i r1 hr1
+    have hl : ({ lrs := (g.getOrCreate t).1.lrs.modify (g.getOrCreate t).2 (fun r => (r.setBufferSize size).markUsage a 1),
+                 ranges := (g.getOrCreate t).1.ranges } : Graph).lookup t = some (g.getOrCreate t).2 := hg.2.2.1
+    refine ⟨this.1.imp id (Or.imp id ?_), this.2.imp id (Or.imp id ?_)⟩ <;>
+    · rintro ⟨lo, hi, ⟨hji, hnd, hlo, hhi⟩, heq⟩
+      exact ⟨lo, hi, ⟨by rw [← hji]; exact hl, hnd, hlo, hhi⟩, heq⟩
+  | fuse inp out =>
+    simp only [Graph.apply] at h
+    split at h
+    · cases h
+    · split at h
+      · cases h
+      · rename_i r hr
+        split at h
+        · cases h
+        · rename_i r' hr'
+          simp only [Except.ok.injEq] at h
+          subst h
+          have hse : r'.start = r.start ∧ r'.end_ = r.end_ := by
+            unfold LR.addTensor at hr'
+            split at hr'
+            · cases hr'; exact ⟨rfl, rfl⟩
+            · split at hr'
+              · cases hr'
+              · cases hr'; exact ⟨rfl, rfl⟩
+          simp only [List.getElem?_set] at hr1
+          by_cases hji : (g.getOrCreate inp).2 = i
+          · subst hji
+            have hlt : (g.getOrCreate inp).2 < (g.getOrCreate inp).1.lrs.length := (getOrCreate_spec hw inp).2.2.2
+            simp only [if_true, hlt, Option.some.injEq] at hr1
+            subst hr1
+            exact tight_of_unchanged (getOrCreate_lrs inp _ r hr) hse.1 hse.2
+          · simp only [hji, if_false] at hr1
+            exact tight_of_unchanged (getOrCreate_lrs inp i r1 hr1) rfl rfl
+  | markVars len =>
+    simp only [Graph.apply, Except.ok.injEq] at h
+    subst h
+    obtain ⟨r0, h0, hs, he⟩ := foldl_modify_tight len g.ranges g.lrs i r1 hr1
+    refine ⟨?_, ?_⟩
+    · rcases hs with hs | ⟨hl, ⟨p, hp, hpi, hv⟩, h0s⟩
+      · exact Or.inl ⟨r0, h0, hs⟩
+      · refine Or.inr (Or.inr ⟨0, len, ⟨⟨p.1, ?_, hv⟩, hl, rfl, rfl⟩, h0s.symm⟩)
+        rw [← hpi]; exact hp
+    · rcases he with he | ⟨hl, ⟨p, hp, hpi, hv⟩, h0e⟩
+      · exact Or.inl ⟨r0, h0, he⟩
+      · refine Or.inr (Or.inr ⟨0, len, ⟨⟨p.1, ?_, hv⟩, hl, rfl, rfl⟩, h0e.symm⟩)
+        rw [← hpi]; exact hp
+  | fail => simp [Graph.apply] at h
+
+
+theorem none_of_le_none {g g1 : Graph} (h : g.Le g1) {i : Nat} (h1 : g1.lrs[i]? = none) : g.lrs[i]? = none := by
+  cases hg : g.lrs[i]? with
+  | none => rfl
+  | some r =>
+    obtain ⟨r', hr', _⟩ := h.lrs i r hg
+    rw [h1] at hr'
+    cases hr'
+
+/-- **Tightness of the walk.** Start and end of every range of the final graph are either what they were in the
+    initial graph, or the sentinels of a range the walk created and never marked, or attained by one of the walk's
+    `mark_usage` calls on that very range. -/
+theorem run_tight {evs : List Ev} : ∀ {g g' : Graph}, g.WF → g.run evs = .ok g' →
+    ∀ (i : Nat) (r' : LR), g'.lrs[i]? = some r' → TightStep g (fun lo hi => ∃ e ∈ evs, e.Hits g' i lo hi) i r' := by
+  induction evs with
+  | nil =>
+    intro g g' _ h i r' hr'
+    simp only [Graph.run, Except.ok.injEq] at h
+    subst h
+    exact ⟨Or.inl ⟨r', hr', rfl⟩, Or.inl ⟨r', hr', rfl⟩⟩
+  | cons e es ih =>
+    intro g g' hw h i r' hr'
+    simp only [Graph.run] at h
+    split at h
+    · rename_i g1 h1
+      have ha := apply_spec hw e h1
+      have hle := (run_spec ha.1 h).2
+      have hi := ih ha.1 h i r' hr'
+      refine ⟨?_, ?_⟩
+      · rcases hi.1 with ⟨r1, hr1, hs⟩ | ⟨hn, hs⟩ | ⟨lo, hi', ⟨e', he', hh⟩, hs⟩
+        · rcases (apply_tight hw e h1 i r1 hr1).1 with ⟨r0, hr0, hs0⟩ | ⟨hn0, hs0⟩ | ⟨lo, hi', hh, hs0⟩
+          · exact Or.inl ⟨r0, hr0, by omega⟩
+          · exact Or.inr (Or.inl ⟨hn0, by omega⟩)
+          · exact Or.inr (Or.inr ⟨lo, hi', ⟨e, by simp, hits_le hle hh⟩, by omega⟩)
+        · exact Or.inr (Or.inl ⟨none_of_le_none ha.2 hn, hs⟩)
+        · exact Or.inr (Or.inr ⟨lo, hi', ⟨e', List.mem_cons_of_mem _ he', hh⟩, hs⟩)
+      · rcases hi.2 with ⟨r1, hr1, hs⟩ | ⟨hn, hs⟩ | ⟨lo, hi', ⟨e', he', hh⟩, hs⟩
+        · rcases (apply_tight hw e h1 i r1 hr1).2 with ⟨r0, hr0, hs0⟩ | ⟨hn0, hs0⟩ | ⟨lo, hi', hh, hs0⟩
+          · exact Or.inl ⟨r0, hr0, by omega⟩
+          · exact Or.inr (Or.inl ⟨hn0, by omega⟩)
+          · exact Or.inr (Or.inr ⟨lo, hi', ⟨e, by simp, hits_le hle hh⟩, by omega⟩)
+        · exact Or.inr (Or.inl ⟨none_of_le_none ha.2 hn, hs⟩)
+        · exact Or.inr (Or.inr ⟨lo, hi', ⟨e', List.mem_cons_of_mem _ he', hh⟩, hs⟩)
+    · cases h
+
+
+theorem npuLoop_origin (sram : Bool) : ∀ (ops : List SchedOp) (ts : TimeState) (k : Nat) (x : Nat × List Ev),
+    (npuLoop sram ops ts).1[k]? = some x → ∃ op : SchedOp, ops[k]? = some op ∧ x.2 = opEvents sram op x.1 := by
+  intro ops
+  induction ops with
+  | nil => intro ts k x h; simp [npuLoop] at h
+  | cons o os ih =>
+    intro ts k x h
+    cases k with
+    | zero =>
+      simp only [npuLoop, List.getElem?_cons_zero, Option.some.injEq] at h
+      subst h
+      exact ⟨o, rfl, rfl⟩
+    | succ k =>
+      simp only [npuLoop, List.getElem?_cons_succ] at h
+      obtain ⟨op, h1, h2⟩ := ih (ts.step o.cascade) k x h
+      exact ⟨op, by simpa using h1, h2⟩
+
+/-- every graph operation of the walk belongs to one scheduled operation (at its time index) or is the final mark
+    of a subgraph output -/
+theorem npuWalk_event_origin (s : Schedule) (ct : Nat) (e : Ev) (he : e ∈ (npuWalk s ct).events) :
+    (∃ (k : Nat) (op : SchedOp) (tk : Nat), s.ops[k]? = some op ∧ (npuWalk s ct).times[k]? = some tk ∧
+        e ∈ opEvents s.sram op tk) ∨
+    e ∈ outputEvents s.outputs (npuWalk s ct).current := by
+  simp only [npuWalk, List.mem_append, List.mem_flatMap] at he
+  rcases he with ⟨x, hx, hex⟩ | he
+  · obtain ⟨k, hk, hkx⟩ := List.getElem_of_mem hx
+    have hk' : (npuLoop s.sram s.ops { current := ct, cascades := [] }).1[k]? = some x := by
+      simp [List.getElem?_eq_getElem hk, hkx]
+    obtain ⟨op, hop, hev⟩ := npuLoop_origin s.sram s.ops _ k x hk'
+    refine Or.inl ⟨k, op, x.1, hop, ?_, by rw [← hev]; exact hex⟩
+    simp [npuWalk, List.getElem?_map, hk']
+  · exact Or.inr he
+
+
 end VelaVerif.LiveRange
